@@ -5,6 +5,8 @@ from .fam_seg import Seg
 from .fam_iovs import Iovs
 from .fam_fe import Fe
 from .fam_sess import Sess
+from .fam_tx import Tx
+from .fam_proxy import Fsrv, Proxy, Psess
 
 PROPS = {}
 
@@ -62,13 +64,15 @@ reg(id="C09", props="Props/C09.v", proof_files=["Proofs/BeProofs.v"], families=[
     trusted_base=BE_TB, assumptions=BE_ASSUME + ["the kernel disposes of SCM_RIGHTS descriptors that were never received when the socket is closed"])
 
 reg(id="C08", props="Props/C08.v", proof_files=["Proofs/TransportProofs.v", "Proofs/FramingProofs.v"],
-    families=[Seg(), Iovs()],
+    families=[Seg(), Iovs(), Tx()],
     rule="family seg: clean request histories (as family be) where one message is delivered under every 2-split at characteristic "
          "offsets (1, 11, 12, 13, len-1, random), random 3-splits, byte-by-byte, and all messages split at the header boundary, "
          "forced deterministically by the interposed recvmsg; and the stream cut at offsets 0, 1, 11, 12, 13, len-1, random of a "
          "message followed by end-of-stream; each case runs the real server twice (whole / variant). family iovs: "
          "get_sub_iovs_offset on all length vectors over {0,1,2,3,12} up to 3 entries x every skip, plus random. "
-         "non-trivial = the whole run invoked a handler",
+         "family tx: one frontend request (incl. descriptor-carrying ones) written through an interposed sendmsg that refuses the write "
+         "with EAGAIN and/or accepts only k bytes per call (refused first, byte by byte, one short write, random); the peer reads byte by byte so that "
+         "the byte the descriptors ride on is known; judged against the specification encoding. non-trivial = the whole run invoked a handler",
     trusted_base=BE_TB, assumptions=BE_ASSUME + ["sender side: sendmsg accepts a prefix of the offered bytes or fails with an errno (oracle); "
                                                    "SCM_RIGHTS of a partially accepted sendmsg travel with its first byte"])
 reg(id="C01", props="Props/C01.v", proof_files=["Proofs/WireProofs.v"], families=[Fe(), Be()],
@@ -77,8 +81,17 @@ reg(id="C02", props="Props/C02.v", proof_files=["Proofs/FeProofs.v", "Proofs/BeP
     rule=SESS_RULE + " || " + FE_RULE + " || " + BE_RULE, trusted_base=FE_TB + BE_TB, assumptions=BE_ASSUME)
 reg(id="C03", props="Props/C03.v", proof_files=["Proofs/FeProofs.v", "Proofs/BeProofs.v"], families=[Sess(), Fe(), Be()],
     rule=SESS_RULE + " || " + FE_RULE + " || " + BE_RULE, trusted_base=FE_TB + BE_TB, assumptions=BE_ASSUME)
-reg(id="C06", props="Props/C06.v", proof_files=["Proofs/FeProofs.v"], families=[Fe()],
-    rule=FE_RULE, trusted_base=FE_TB, assumptions=BE_ASSUME)
+PX_RULE = ("family fsrv: request streams fed to the real FrontendReqHandler by a raw peer (all ten backend-request codes, valid and invalid UUIDs / "
+           "mapping descriptors, NEED_REPLY and REPLY bits, 0..33 descriptors, grammar-aware mutations) with scripted handler results (0, non-zero, "
+           "errno classes, error without errno), REPLY_ACK on/off; family proxy: the real Backend proxy against a scripted peer whose acknowledgement "
+           "is conformant or mutated field by field; family psess: the real proxy against the real server with a recording handler and a watchdog; "
+           "judged by Spec/ProxySpec.v")
+PX_TB = ["hand models Model/Proxy.v of the Backend proxy and of FrontendReqHandler::handle_request (tied by families fsrv, proxy, psess)",
+         "Spec/ProxySpec.v: my transcription of the backend-request table, the acknowledgement rule and the validity of handler invocations"]
+reg(id="C06", props="Props/C06.v", proof_files=["Proofs/FeProofs.v", "Proofs/ProxyProofs.v"], families=[Fe(), Fsrv(), Proxy()],
+    rule=FE_RULE + " || " + PX_RULE, trusted_base=FE_TB + PX_TB, assumptions=BE_ASSUME)
+reg(id="C18", props="Props/C18.v", proof_files=["Proofs/ProxyProofs.v"], families=[Psess(), Fsrv(), Proxy()],
+    rule=PX_RULE, trusted_base=PX_TB, assumptions=BE_ASSUME)
 reg(id="BE-DEV",
     props="Props/C20.v",
     families=[Be()],
@@ -93,3 +106,5 @@ reg(id="FE-DEV", props="Props/C20.v", families=[Fe()], rule="dev")
 class SessNoSpec(Sess):
     spec = False
 reg(id="SESS-DEV", props="Props/C20.v", families=[Sess()], rule="dev")
+
+reg(id="PX-DEV", props="Props/C20.v", families=[Fsrv(), Proxy(), Psess()], rule="dev")
